@@ -131,7 +131,7 @@ def recv_step(init: int, w: int, paused: bool, b1: int, b2: int, ev: int, n: int
         elif ev == 3:
             chan.resume_reading()
         else:
-            data = DATA[:n]
+            data = (DATA * 2)[:n]
             dt = None if ev == 0 else EXTENDED_DATA_STDERR
             try:
                 if ev == 0:
